@@ -256,6 +256,13 @@ theorem C15_constant_to_enum_counterexample : ¬ C15_constant_to_enum_full := Co
 theorem C15_constant_to_enum_correct_partial (p : ConstantToEnum.Params) (S S' : Schemas) (hw : WF S)
     (hs : ConstantToEnum.plainTargets p S = true) (h : ConstantToEnum.run p S = .ok S') :
     S' = ConstantToEnum.spec p S := ConstantToEnum.correct_partial p S S' hw hs h
+/-- a `string` scalar whose constant is not a string is not a target (fix 637545e in /repo; the
+    pre-fix code, `ConstantToEnum.runPreFix`, panicked on the same input) -/
+theorem C15_constant_to_enum_odd_constant :
+    ConstantToEnum.outKind (ConstantToEnum.runPreFix ConstantToEnum.wP ConstantToEnum.wOddSchemas) = "panic" ∧
+    ConstantToEnum.targets ConstantToEnum.wP default ConstantToEnum.wOdd = false ∧
+    ConstantToEnum.outKind (ConstantToEnum.run ConstantToEnum.wP ConstantToEnum.wOddSchemas) = "ok" :=
+  ⟨ConstantToEnum.preFix_panics, ConstantToEnum.odd_constant_untouched⟩
 theorem C15_constant_to_enum_frame (p : ConstantToEnum.Params) (S S' : Schemas) (hw : WF S)
     (h : ConstantToEnum.run p S = .ok S') : FrameOK (ConstantToEnum.targets p) (fun _ => false) S S' :=
   ConstantToEnum.frame p S S' hw h
